@@ -308,6 +308,11 @@ func (g G) refConfig(root m.BodyM, paths []string, pi int, simple bool) string {
 			}
 			switch an {
 			case "tags":
+				if g.Chance(12) {
+					// a template made of a single interpolation where a collection is expected
+					fmt.Fprintf(&sb, "  tags = \"${%s}\"%s", g.refAddr(simple), nl)
+					continue
+				}
 				// (keys that are no identifiers: their index steps need quoting / escaping when rendered)
 				fmt.Fprintf(&sb, "  tags = { %s = %s }%s", Pick(g, []string{"k", "k", `"say \"hi\""`, `"a b"`}), g.refExpr(simple), nl)
 			case "size":
